@@ -147,6 +147,13 @@ func execVersion(vec J, out *Writer) {
 		errt := vt.UnmarshalText([]byte(s))
 		rec["res_control"] = parseObs{ok: errc == nil, v: vc}.J()
 		rec["res_text"] = parseObs{ok: errt == nil, v: vt}.J()
+		// the same calls on receivers that already hold another version (a decoder loop reuses its struct)
+		dc := version.Version{Epoch: 7, Version: "9.9", Revision: "8"}
+		dt := dc
+		errdc := dc.UnmarshalControl(s)
+		errdt := dt.UnmarshalText([]byte(s))
+		rec["dirty_control"] = parseObs{ok: errdc == nil, v: dc}.J()
+		rec["dirty_text"] = parseObs{ok: errdt == nil, v: dt}.J()
 		rt := J{}
 		if p.ok {
 			v := p.v
